@@ -288,7 +288,13 @@ def exec_roundtrip(job):
                 res.stats = {"rmse": v(1), "mean": v(2), "max": v(3), "sse": v(4)}
                 res.np_arrays = {"error_array": np.array([v(k) for k in range(N + 2)]), "timestamps": stamps.copy()}
                 if fmt == "res_traj":
+                    # a longer trajectory first, then the (shorter) one under test: buffers must not leak between archive members
+                    longer = PoseTrajectory3D(positions_xyz=np.array([[v(k), v(k + 1), v(k + 2)] for k in range(N + 3)]),
+                                              orientations_quat_wxyz=np.tile([1.0, 0, 0, 0], (N + 3, 1)),
+                                              timestamps=np.array([1.5e9 + k for k in range(N + 3)]))
+                    res.add_trajectory("a_longer_first", longer)
                     res.add_trajectory("est", traj)
+                    res.add_trajectory("z_path", PosePath3D(poses_se3=[np.eye(4)]))
                 path = os.path.join(d, "r.zip")
                 if c["src"] == "handle":
                     with open(path, "wb") as fh:
@@ -306,6 +312,9 @@ def exec_roundtrip(job):
                 nb = N
                 if fmt == "res_traj":
                     bt = back.trajectories.get("est")
+                    bl, bp = back.trajectories.get("a_longer_first"), back.trajectories.get("z_path")
+                    if bl is None or bl.num_poses != N + 3 or bp is None or bp.num_poses != 1:
+                        type_same = False
                     if bt is None or type(bt) is not type(traj):
                         type_same = False
                     else:
